@@ -624,17 +624,19 @@ func isBlockedState(st string) bool {
 
 // workerStates returns, from one consistent (stop-the-world) snapshot, how many live worker goroutines
 // there are and how many of them are blocked.
-func workerStates() (live, blocked int) {
+func allStacks() string {
 	buf := make([]byte, 1<<18)
 	for {
 		n := runtime.Stack(buf, true)
 		if n < len(buf) {
-			buf = buf[:n]
-			break
+			return string(buf[:n])
 		}
 		buf = make([]byte, 2*len(buf))
 	}
-	for _, blk := range strings.Split(string(buf), "\n\n") {
+}
+
+func workerStates() (live, blocked int) {
+	for _, blk := range strings.Split(allStacks(), "\n\n") {
 		if !strings.Contains(blk, "c16kit.workerMain(") {
 			continue
 		}
@@ -791,7 +793,7 @@ func RunConcurrent(t *rapid.T, c *vk.Case, mk Factory, hasTotal, parallel bool) 
 			nOpt++
 		}
 		if nOpt == 0 {
-			fmt.Fprintf(os.Stderr, "VERIF-INCONCLUSIVE C16: %d workers blocked with no API call in flight (deadlock in the code under test?); log=%v\n", s.started-fin, s.log)
+			fmt.Fprintf(os.Stderr, "VERIF-INCONCLUSIVE C16: %d workers blocked with no API call in flight (deadlock in the code under test?); log=%v\n%s\n", s.started-fin, s.log, allStacks())
 			os.Exit(2)
 		}
 		batch := 1
